@@ -630,3 +630,320 @@ Proof.
   - apply filter_forall. intros y. apply @RInt_correct. apply @ex_RInt_continuous. intros z _. apply Hc.
   - apply Hc.
 Qed.
+
+(* ---------------- EI >= 0 from Phi' = pdf and Phi -> 0 at -oo only (closes the _partial) -------- *)
+(* "f -> 0 at -oo" in epsilon form *)
+Definition tends_to_0_at_minus_infty (f : R -> R) : Prop :=
+  forall eps, 0 < eps -> exists M, forall u, u < M -> Rabs (f u) < eps.
+
+Lemma is_lim_m_infty_0 (f : R -> R) : is_lim f m_infty 0 -> tends_to_0_at_minus_infty f.
+Proof.
+  intros H eps Heps. apply is_lim_spec in H. specialize (H (mkposreal eps Heps)).
+  destruct H as [M HM]. exists M. intros u Hu. specialize (HM u Hu). simpl in HM.
+  now rewrite Rminus_0_r in HM.
+Qed.
+
+(* a function with nonnegative derivative on (-oo, a] that is eventually > -eps at -oo is >= 0 there *)
+Lemma nonneg_from_minus_infty (f df : R -> R) (a : R) :
+  (forall x, x <= a -> is_derive f x (df x)) -> (forall x, x <= a -> 0 <= df x) ->
+  (forall eps, 0 < eps -> exists M, forall u, u < M -> - eps < f u) ->
+  forall u, u <= a -> 0 <= f u.
+Proof.
+  intros Hd Hpos Hlim u Hu.
+  destruct (Rle_lt_dec 0 (f u)) as [H|H]; [exact H|]. exfalso.
+  destruct (Hlim (- f u)) as [M HM]; [lra|].
+  set (v := Rmin (M - 1) (u - 1)).
+  assert (Hv1 : v < M) by (unfold v; generalize (Rmin_l (M - 1) (u - 1)); lra).
+  assert (Hv2 : v < u) by (unfold v; generalize (Rmin_r (M - 1) (u - 1)); lra).
+  specialize (HM v Hv1).
+  destruct (MVT_gen f v u df) as [c [Hc Hfc]].
+  - intros x Hx. apply Hd. rewrite Rmin_left, Rmax_right in Hx by lra. lra.
+  - intros x Hx. rewrite Rmin_left, Rmax_right in Hx by lra.
+    apply continuity_pt_filterlim. apply @ex_derive_continuous. eexists. apply Hd. lra.
+  - rewrite Rmin_left, Rmax_right in Hc by lra.
+    assert (0 <= df c * (u - v)) by (apply Rmult_le_pos; [apply Hpos; lra | lra]). lra.
+Qed.
+
+Section EINonnegFull.
+Variable Phi : R -> R.
+Hypothesis HPhi : forall u, is_derive Phi u (gauss_pdf u).
+Hypothesis Hlim : tends_to_0_at_minus_infty Phi.
+
+Lemma Phi_nonneg u : 0 <= Phi u.
+Proof.
+  apply (nonneg_from_minus_infty Phi gauss_pdf u); [intros; apply HPhi | | | lra].
+  - intros x _. apply Rlt_le, gauss_pdf_pos.
+  - intros eps Heps. destruct (Hlim eps Heps) as [M HM]. exists M. intros v Hv.
+    specialize (HM v Hv). apply Rabs_def2 in HM. lra.
+Qed.
+
+(* Mills' bound: for u < 0,  -u Phi(u) <= pdf(u) *)
+Lemma mills_bound u : u < 0 -> - u * Phi u <= gauss_pdf u.
+Proof.
+  intros Hu.
+  pose (h := fun t => gauss_pdf t / (- t) - Phi t).
+  pose (dh := fun t => gauss_pdf t / (t * t)).
+  assert (H : 0 <= h u).
+  { apply (nonneg_from_minus_infty h dh u); [| | | lra].
+    - intros x Hx. unfold h, dh. assert (x <> 0) by lra. eapply is_derive_eq.
+      + apply @is_derive_minus; [|apply HPhi].
+        apply @is_derive_div; [apply gauss_pdf_derive | | lra].
+        apply @is_derive_opp. apply @is_derive_id.
+      + unfold minus, plus, opp, one; simpl. field. lra.
+    - intros x Hx. unfold dh. apply Rlt_le, Rdiv_lt_0_compat; [apply gauss_pdf_pos | nra].
+    - intros eps Heps. destruct (Hlim eps Heps) as [M HM]. exists (Rmin M u). intros v Hv.
+      assert (v < M) by (generalize (Rmin_l M u); lra). assert (v < 0) by (generalize (Rmin_r M u); lra).
+      specialize (HM v H). apply Rabs_def2 in HM. unfold h.
+      assert (0 < gauss_pdf v / - v) by (apply Rdiv_lt_0_compat; [apply gauss_pdf_pos | lra]). lra. }
+  unfold h in H. assert (Hq : Phi u <= gauss_pdf u / - u) by lra.
+  apply (Rmult_le_compat_l (- u)) in Hq; [|lra]. replace (- u * (gauss_pdf u / - u)) with (gauss_pdf u) in Hq by (field; lra).
+  exact Hq.
+Qed.
+
+Lemma ei_integrand_nonneg_full u : 0 <= u * Phi u + gauss_pdf u.
+Proof.
+  destruct (Rlt_le_dec u 0) as [Hu|Hu].
+  - generalize (mills_bound u Hu). lra.
+  - generalize (Phi_nonneg u) (gauss_pdf_pos u). intros. assert (0 <= u * Phi u) by (apply Rmult_le_pos; lra). lra.
+Qed.
+End EINonnegFull.
+
+(* ---------------- a cdf with these two properties exists (non-vacuity) --------------------------- *)
+Definition Phi0 (u : R) : R := RInt gauss_pdf 0 u.
+
+Lemma gauss_pdf_continuous u : continuous gauss_pdf u.
+Proof. apply @ex_derive_continuous. eexists; apply gauss_pdf_derive. Qed.
+
+Lemma Phi0_derive u : is_derive Phi0 u (gauss_pdf u).
+Proof.
+  apply (is_derive_RInt gauss_pdf Phi0 0 u).
+  - apply filter_forall. intros y. apply @RInt_correct. apply @ex_RInt_continuous. intros z _. apply gauss_pdf_continuous.
+  - apply gauss_pdf_continuous.
+Qed.
+
+Lemma Phi0_0 : Phi0 0 = 0.
+Proof. unfold Phi0. exact (RInt_point 0 gauss_pdf). Qed.
+
+Lemma mono_from_derive (f df : R -> R) : (forall x, is_derive f x (df x)) -> (forall x, 0 <= df x) ->
+  forall v u, v <= u -> f v <= f u.
+Proof.
+  intros Hd Hp v u Hvu. destruct (Req_dec v u) as [->|Hne]; [lra|].
+  destruct (MVT_gen f v u df) as [c [Hc Hfc]].
+  - intros x _. apply Hd.
+  - intros x _. apply continuity_pt_filterlim. apply @ex_derive_continuous. eexists; apply Hd.
+  - assert (0 <= df c * (u - v)) by (apply Rmult_le_pos; [apply Hp | lra]). lra.
+Qed.
+
+Lemma Phi0_mono v u : v <= u -> Phi0 v <= Phi0 u.
+Proof. apply (mono_from_derive Phi0 gauss_pdf Phi0_derive). intros x; apply Rlt_le, gauss_pdf_pos. Qed.
+
+Definition Cb : R := exp (1 / 2) / sqrt (2 * PI).
+
+Lemma gauss_pdf_le_exp t : gauss_pdf t <= Cb * exp t.
+Proof.
+  unfold gauss_pdf, Cb. generalize sqrt_2PI_pos; intros Hs.
+  replace (exp (1 / 2) / sqrt (2 * PI) * exp t) with (exp (1 / 2 + t) / sqrt (2 * PI)) by (rewrite exp_plus; unfold Rdiv; ring).
+  apply Rmult_le_compat_r; [left; apply Rinv_0_lt_compat, Hs|].
+  assert (Hle : - (t * t) / 2 <= 1 / 2 + t) by (generalize (Rle_0_sqr (t + 1)); unfold Rsqr; intros H0; replace ((t + 1) * (t + 1)) with (t * t + 2 * t + 1) in H0 by ring; lra).
+  destruct (Rle_lt_or_eq_dec _ _ Hle) as [Hlt|Heq]; [left; apply exp_increasing, Hlt | rewrite Heq; right; reflexivity].
+Qed.
+
+Lemma Phi0_lower u : - Cb <= Phi0 u.
+Proof.
+  assert (HC : 0 < Cb) by (unfold Cb; apply Rdiv_lt_0_compat; [apply exp_pos | apply sqrt_2PI_pos]).
+  destruct (Rle_lt_dec 0 u) as [Hu|Hu].
+  - generalize (Phi0_mono 0 u Hu). rewrite Phi0_0. lra.
+  - (* k(t) = Cb exp t - Phi0 t is nondecreasing *)
+    pose (k := fun t => Cb * exp t - Phi0 t).
+    assert (Hk : k u <= k 0).
+    { apply (mono_from_derive k (fun t => Cb * exp t - gauss_pdf t)); [| |lra].
+      - intros x. unfold k. apply @is_derive_minus; [|apply Phi0_derive].
+        eapply is_derive_eq; [apply @is_derive_scal; apply is_derive_exp | unfold scal; simpl; unfold mult; simpl; ring].
+      - intros x. generalize (gauss_pdf_le_exp x). lra. }
+    unfold k in Hk. rewrite Phi0_0, exp_0 in Hk. generalize (exp_pos u). intros. nra.
+Qed.
+
+Lemma gauss_cdf_exists :
+  exists Phi : R -> R, (forall u, is_derive Phi u (gauss_pdf u)) /\ tends_to_0_at_minus_infty Phi.
+Proof.
+  pose (E := fun y => exists u, y = - Phi0 u).
+  assert (Hb : bound E). { exists Cb. intros y [u ->]. generalize (Phi0_lower u). lra. }
+  assert (Hne : exists y, E y). { exists (- Phi0 0), 0. reflexivity. }
+  destruct (completeness E Hb Hne) as [m [Hub Hleast]].
+  exists (fun u => Phi0 u + m). split.
+  - intros u. eapply is_derive_eq.
+    + apply @is_derive_plus; [apply Phi0_derive | apply @is_derive_const].
+    + unfold plus, zero; simpl. ring.
+  - intros eps Heps.
+    assert (Hex : exists u0, m - eps < - Phi0 u0).
+    { apply Classical_Prop.NNPP. intros Hn. assert (Hub' : is_upper_bound E (m - eps)).
+      { intros y [u ->]. destruct (Rle_lt_dec (- Phi0 u) (m - eps)) as [H|H]; [exact H|]. exfalso. apply Hn. now exists u. }
+      specialize (Hleast _ Hub'). lra. }
+    destruct Hex as [u0 Hu0]. exists u0. intros u Hu.
+    assert (H1 : - Phi0 u <= m) by (apply Hub; now exists u).
+    assert (H2 : Phi0 u <= Phi0 u0) by (apply Phi0_mono; lra).
+    apply Rabs_def1; lra.
+Qed.
+
+(* ---------------- the std floor; the HyperTune ensemble chain rule ------------------------------ *)
+Section Floor.
+Variables Phi pdf : R -> R.
+Variable C : Cfg R.
+Let O := ROps Phi pdf.
+
+(* below the floor the head sees the floor: it is locally constant in std *)
+Lemma below_floor (F : R -> R) (smin s : R) : s < smin ->
+  is_derive (fun y => F (Rmax y smin)) s 0 /\ F (Rmax s smin) = F smin.
+Proof.
+  intros Hs. split; [|now rewrite Rmax_right by lra].
+  apply is_derive_ext_loc with (f := fun _ => F smin); [|apply @is_derive_const].
+  assert (Hp : 0 < smin - s) by lra.
+  exists (mkposreal _ Hp). intros y Hy.
+  unfold ball in Hy; simpl in Hy. unfold AbsRing_ball, abs, minus, plus, opp in Hy; simpl in Hy.
+  apply Rabs_def2 in Hy. rewrite Rmax_right by lra. reflexivity.
+Qed.
+
+Lemma ei_below_floor (means : list R) (std : R) (bests : list R) : std < c_std_min C ->
+  is_derive (fun y => ei_head O C means y bests) std 0 /\
+  ei_head O C means std bests = ei_head O C means (c_std_min C) bests.
+Proof.
+  intros Hs.
+  pose (F := fun s' : R => tmean O (tabulate (bsize (length means) (length bests)) (fun j =>
+      let u := quant_u O C (bget O bests j) (bget O means j) s' in
+      o_mul O (o_opp O s') (o_add O (o_mul O u (o_cdf O u)) (o_pdf O u))))).
+  destruct (below_floor F (c_std_min C) std Hs) as [H1 H2]. split.
+  - exact H1.
+  - change (F (Rmax std (c_std_min C)) = F (Rmax (c_std_min C) (c_std_min C))).
+    rewrite H2. now rewrite Rmax_left by lra.
+Qed.
+
+Lemma eipu_below_floor (means : list R) (std : R) (bests costs : list R) : std < c_std_min C ->
+  is_derive (fun y => eipu_head O C means y bests costs) std 0 /\
+  eipu_head O C means std bests costs = eipu_head O C means (c_std_min C) bests costs.
+Proof.
+  intros Hs.
+  pose (F := fun s' : R => o_opp O (tmean O (tabulate (bsize (length means) (length costs)) (fun j =>
+      eipu_term O C (bget O bests j) (bget O means j) s' (bget O costs j))))).
+  destruct (below_floor F (c_std_min C) std Hs) as [H1 H2]. split.
+  - exact H1.
+  - change (F (Rmax std (c_std_min C)) = F (Rmax (c_std_min C) (c_std_min C))).
+    rewrite H2. now rewrite Rmax_left by lra.
+Qed.
+
+Lemma cei_below_floor (means : list R) (std : R) (bests : list (option R)) (means_c : list R) (std_c : R) :
+  std < c_std_min C ->
+  is_derive (fun y => cei_head O C means y bests means_c std_c) std 0 /\
+  cei_head O C means std bests means_c std_c = cei_head O C means (c_std_min C) bests means_c std_c.
+Proof.
+  intros Hs.
+  pose (F := fun s' : R => o_opp O (tmean O (tabulate (bsize (length means) (length means_c)) (fun j =>
+      cei_term O C (bgeto bests j) (bget O means j) s' (bget O means_c j) (constr_std O C std_c))))).
+  destruct (below_floor F (c_std_min C) std Hs) as [H1 H2]. split.
+  - exact H1.
+  - change (F (Rmax std (c_std_min C)) = F (Rmax (c_std_min C) (c_std_min C))).
+    rewrite H2. now rewrite Rmax_left by lra.
+Qed.
+End Floor.
+
+Section Ensemble.
+Variables Phi pdf : R -> R.
+Let O := ROps Phi pdf.
+
+(* a level with its derivative data: theta, mu, var as functions of one input coordinate, d mu, d var at x *)
+Definition flevel := (R * (R -> R) * (R -> R) * R * R)%type.
+Definition inst (l : list flevel) (y : R) : list (R * R * R) :=
+  map (fun lv : flevel => let '(th, mu, var, _, _) := lv in (th, mu y, var y)) l.
+Definition dinst (l : list flevel) : list (R * R * R) :=
+  map (fun lv : flevel => let '(th, _, _, dmu, dvar) := lv in (th, dmu, dvar)) l.
+Definition level_ok (x : R) (lv : flevel) : Prop :=
+  let '(th, mu, var, dmu, dvar) := lv in is_derive mu x dmu /\ is_derive var x dvar.
+
+Lemma ens_acc_derive (x : R) (l : list flevel) : List.Forall (level_ok x) l ->
+  forall (am av : R -> R) (dam dav : R), is_derive am x dam -> is_derive av x dav ->
+    is_derive (fun y => fst (ens_acc O (inst l y) (am y, av y))) x (fst (ens_acc O (dinst l) (dam, dav))) /\
+    is_derive (fun y => snd (ens_acc O (inst l y) (am y, av y))) x (snd (ens_acc O (dinst l) (dam, dav))).
+Proof.
+  induction 1 as [|[[[[th mu] var] dmu] dvar] l [Hmu Hvar] Hl IH]; intros am av dam dav Ham Hav.
+  - simpl. split; assumption.
+  - cbn [inst dinst map ens_acc fst snd o_add o_mul O ROps].
+    apply (IH (fun y => mu y * th + am y) (fun y => var y * (th * th) + av y)).
+    + eapply is_derive_eq; [apply @is_derive_plus; [apply @is_derive_scal_l; exact Hmu | exact Ham]|].
+      unfold plus, scal; simpl. unfold mult; simpl. ring.
+    + eapply is_derive_eq; [apply @is_derive_plus; [apply @is_derive_scal_l; exact Hvar | exact Hav]|].
+      unfold plus, scal; simpl. unfold mult; simpl. ring.
+Qed.
+
+Theorem ens_backward_is_derivative (x : R) (l : list flevel) (hgm hgs md sd : R) :
+  List.Forall (level_ok x) l -> 0 < snd (ens_predict O (inst l x)) ->
+  is_derive (fun y => backward_target O (ens_predict O (inst l y)) hgm hgs md sd) x
+            (ens_backward O (inst l x) (dinst l) hgm hgs sd).
+Proof.
+  intros Hl Hpos. unfold ens_predict in *. cbn [o_zero O ROps] in *.
+  destruct (ens_acc_derive x l Hl (fun _ => 0) (fun _ => 0) 0 0) as [Hm Hv];
+    [apply @is_derive_const | apply @is_derive_const |].
+  unfold backward_target, ens_backward, ens_predict.
+  cbn [o_add o_mul o_div o_sqrt o_one o_zero O ROps].
+  set (M := fun y => fst (ens_acc O (inst l y) (0, 0))) in *.
+  set (V := fun y => snd (ens_acc O (inst l y) (0, 0))) in *.
+  set (dM := fst (ens_acc O (dinst l) (0, 0))) in *.
+  set (dV := snd (ens_acc O (dinst l) (0, 0))) in *.
+  change (is_derive (fun y => (M y * sd + md) * hgm + sqrt (V y) * sd * hgs) x
+                    (dM * sd * hgm + dV / ((1 + 1) * sqrt (V x)) * sd * hgs)).
+  assert (Hs : 0 < sqrt (V x)) by (apply sqrt_lt_R0; exact Hpos).
+  auto_derive.
+  - repeat split; try (eexists; eassumption); exact Hpos.
+  - rewrite (is_derive_unique (fun x0 : R => M x0) x dM Hm), (is_derive_unique (fun x0 : R => V x0) x dV Hv). field. lra.
+Qed.
+End Ensemble.
+
+(* ---------------- head-level consequences ------------------------------------------------------- *)
+Section HeadsNonneg.
+Variable Phi : R -> R.
+Hypothesis HPhi : forall u, is_derive Phi u (gauss_pdf u).
+Hypothesis Hlim : tends_to_0_at_minus_infty Phi.
+Let O := ROps Phi gauss_pdf.
+
+Lemma ei_core_nonneg (C : Cfg R) b m s : 0 < s -> 0 <= ei_core O C b m s.
+Proof.
+  intros Hs. unfold ei_core. cbv zeta. cbn [o_mul o_add o_cdf o_pdf O ROps].
+  apply Rmult_le_pos; [lra | apply (ei_integrand_nonneg_full Phi HPhi Hlim)].
+Qed.
+
+Lemma ei_head_nonpos_full (C : Cfg R) (means : list R) (std : R) (bests : list R) :
+  0 < c_std_min C -> ei_head O C means std bests <= 0.
+Proof.
+  intros Hmin. apply (ei_head_nonpos Phi HPhi (Phi_nonneg Phi HPhi Hlim)); [|exact Hmin].
+  intros eps Heps. exists 0. intros u _. generalize (ei_integrand_nonneg_full Phi HPhi Hlim u). lra.
+Qed.
+
+Lemma tmean_nonneg n (f : nat -> R) : (forall j, 0 <= f j) -> 0 <= tmean O (tabulate n f).
+Proof.
+  intros H. unfold O. rewrite tmean_tab.
+  assert (Hs : 0 <= fold_right Rplus 0 (map f (seq 0 n))).
+  { generalize (seq 0 n). induction l as [|i l IH]; simpl; [lra | generalize (H i); lra]. }
+  destruct n as [|n]; [simpl; unfold Rdiv; lra|].
+  unfold Rdiv. apply Rmult_le_pos; [exact Hs | left; apply Rinv_0_lt_compat, lt_0_INR; lia].
+Qed.
+
+Lemma clamp_pos' (C : Cfg R) s : 0 < c_std_min C -> 0 < clamp_std O C s.
+Proof. intros H. unfold clamp_std; cbn. generalize (Rmax_r s (c_std_min C)). lra. Qed.
+
+Lemma eipu_head_nonpos_full (C : Cfg R) (means : list R) (std : R) (bests costs : list R) :
+  0 < c_std_min C -> eipu_head O C means std bests costs <= 0.
+Proof.
+  intros Hmin. unfold eipu_head. cbv zeta. cbn [o_opp O ROps].
+  apply Ropp_le_cancel. rewrite Ropp_involutive, Ropp_0. apply tmean_nonneg. intros j.
+  unfold eipu_term. cbn [o_mul o_pow O ROps]. apply Rmult_le_pos; [apply ei_core_nonneg, clamp_pos', Hmin | left; apply exp_pos].
+Qed.
+
+Lemma cei_head_nonpos_full (C : Cfg R) (means : list R) (std : R) (bests : list (option R)) (means_c : list R) (std_c : R) :
+  0 < c_std_min C -> cei_head O C means std bests means_c std_c <= 0.
+Proof.
+  intros Hmin. unfold cei_head. cbv zeta. cbn [o_opp O ROps].
+  apply Ropp_le_cancel. rewrite Ropp_involutive, Ropp_0. apply tmean_nonneg. intros j.
+  unfold cei_term. cbv zeta. cbn [o_mul o_cdf O ROps].
+  destruct (bgeto bests j) as [b|].
+  - apply Rmult_le_pos; [apply ei_core_nonneg, clamp_pos', Hmin | apply (Phi_nonneg Phi HPhi Hlim)].
+  - apply (Phi_nonneg Phi HPhi Hlim).
+Qed.
+End HeadsNonneg.
